@@ -8,6 +8,12 @@
 //	        with client-view reads, restarts (index kept / wiped) at quiescent
 //	        points; every mutating lower-layer call is logged so that
 //	        Trace_Encrypt.tla follows the mechanism step by step;
+//	long    histories past encrypt.FullMetaBlobSize (10000 lines in one packed
+//	        meta blob): > 10100 receives, restarts at quiescent points, every
+//	        acknowledged blob fetched after each restart. Runs of complete,
+//	        undisturbed receive cycles are written as ONE "recvn" line (all the
+//	        data of their lower-layer calls is in it), runs of fetches as one
+//	        "fetchn" line; the calls of every compaction stay one line each;
 //	crash   the process is frozen (Plan.FreezeAt) at a chosen lower-layer
 //	        call around one compaction, the durable state is cloned, projected,
 //	        restarted (index kept / wiped), observed and continued; optionally a
@@ -35,6 +41,8 @@ import (
 	"math/rand"
 	"os"
 	"runtime"
+	"runtime/debug"
+	"runtime/pprof"
 	"sort"
 	"strconv"
 	"strings"
@@ -250,6 +258,17 @@ func (w *world) metaEntries(dur *stores.Durable, ref string) []entry {
 	return es
 }
 
+type projKey struct {
+	key  *age.X25519Identity
+	u    *univ.Universe
+	data string
+}
+
+var (
+	projMu    sync.Mutex
+	projCache = map[projKey]int{}
+)
+
 // state projects the durable state: meta blobs with their entries, ciphertexts with the plain they decrypt to,
 // index rows. Everything in ids / ranks.
 func (w *world) state(dur *stores.Durable) (metas, enc, index []any) {
@@ -258,7 +277,8 @@ func (w *world) state(dur *stores.Durable) (metas, enc, index []any) {
 		var ents []any
 		type pc struct{ p, c int }
 		var l []pc
-		for _, e := range w.metaEntries(dur, br.String()) {
+		raw := w.metaEntries(dur, br.String())
+		for _, e := range raw {
 			l = append(l, pc{w.rankOfText(e.plain), w.ids.id(e.enc)})
 		}
 		sort.Slice(l, func(i, j int) bool { return l[i].p < l[j].p || l[i].p == l[j].p && l[i].c < l[j].c })
@@ -269,10 +289,14 @@ func (w *world) state(dur *stores.Durable) (metas, enc, index []any) {
 			}
 			ents = append(ents, []any{e.p, e.c})
 		}
-		metas = append(metas, []any{w.ids.id(br.String()), ents})
+		// third component: the number of LINES of the meta blob (a re-packed overlap repeats lines; the code counts them)
+		metas = append(metas, []any{w.ids.id(br.String()), ents, len(raw)})
 	}
-	for _, br := range dur.Mem["r/0"].Refs() {
-		data, _ := dur.Mem["r/0"].Get(br)
+	// which plain blob a stored ciphertext decrypts to: a function of its bytes and the key only (remembered per key and
+	// content, computed by a few workers - a long history has 10^4 of them and is projected several times)
+	refs := dur.Mem["r/0"].Refs()
+	ranks := make([]int, len(refs))
+	plainOf := func(data []byte) int {
 		p := 0
 		if pl, err := decrypt(dur.KeyID, data); err == nil {
 			h := blob.NewHash()
@@ -290,7 +314,32 @@ func (w *world) state(dur *stores.Durable) (metas, enc, index []any) {
 				p = 0
 			}
 		}
-		enc = append(enc, []any{w.ids.id(br.String()), p})
+		return p
+	}
+	var wg sync.WaitGroup
+	for k := 0; k < 6; k++ {
+		wg.Add(1)
+		go func(k int) {
+			defer wg.Done()
+			for i := k; i < len(refs); i += 6 {
+				data, _ := dur.Mem["r/0"].Get(refs[i])
+				key := projKey{dur.KeyID, w.u, string(data)}
+				projMu.Lock()
+				p, ok := projCache[key]
+				projMu.Unlock()
+				if !ok {
+					p = plainOf(data)
+					projMu.Lock()
+					projCache[key] = p
+					projMu.Unlock()
+				}
+				ranks[i] = p
+			}
+		}(k)
+	}
+	wg.Wait()
+	for i, br := range refs {
+		enc = append(enc, []any{w.ids.id(br.String()), ranks[i]})
 	}
 	if kv := dur.KV["r.idx"]; kv != nil {
 		rows := gate.Dump(kv)
@@ -316,11 +365,16 @@ func lowerLine(act string) gate.Event {
 // drain translates the gate log since the last drain into trace lines. inRecv: a ReceiveBlob is (was) in
 // flight, so index misses matter.
 func (w *world) drain(emit func(gate.Event), inRecv bool) {
-	for _, ev := range w.lg.Events() {
-		seq, _ := ev["seq"].(int64)
-		if seq <= w.lastSeq {
-			continue
+	evs := w.lg.Events()
+	first := len(evs)
+	for first > 0 {
+		if seq, _ := evs[first-1]["seq"].(int64); seq <= w.lastSeq {
+			break
 		}
+		first--
+	}
+	for _, ev := range evs[first:] {
+		seq, _ := ev["seq"].(int64)
 		w.lastSeq = seq
 		layer, _ := ev["layer"].(string)
 		call, _ := ev["call"].(string)
@@ -514,13 +568,14 @@ func universe(rng *rand.Rand, n int, extra ...univ.Spec) *univ.Universe {
 		specs = append(specs, univ.Spec{Hash: h, Data: data, Kind: "rnd"})
 	}
 	specs = append(specs, extra...)
-	// duplicates (two empty blobs) would panic in univ.New: make tiny ones distinct
+	// duplicates (two empty blobs) would panic in univ.New: make tiny ones distinct - in their bytes, whatever the hash
+	// function of their ref (the projection tells the plain blob of a ciphertext by the bytes it decrypts to)
 	seen := map[string]bool{}
 	for i := range specs {
-		k := specs[i].Hash + string(specs[i].Data)
+		k := string(specs[i].Data)
 		for seen[k] {
 			specs[i].Data = append(specs[i].Data, byte('A'+i%26), byte(i))
-			k = specs[i].Hash + string(specs[i].Data)
+			k = string(specs[i].Data)
 		}
 		seen[k] = true
 	}
@@ -731,6 +786,268 @@ func runHist(scn *scenario, rng *rand.Rand) {
 	}
 	seg.flush()
 	classes[fmt.Sprintf("hist/n=%d/r=%d", scn.N, len(scn.Restarts))]++
+}
+
+// ---------------------------------------------------------------- long (past FullMetaBlobSize)
+
+// packer folds runs of complete receive cycles into "recvn" lines. A cycle is exactly the five lines a receive of a new
+// blob produces when nothing else falls in between: idxmiss(p), blobput(id), metaput(id, one line), idxset(p, c),
+// op receive ok (b = p). Anything else ends the run and is passed through unchanged (so are the lines of a cycle that
+// a compaction's call fell into). Pure re-packing of recorded lines: nothing is computed or expected here.
+type packer struct {
+	seg             *segment
+	cyc             []gate.Event
+	ps, cs, ms, szs []any
+	raw             [][]gate.Event // the cycles of the open run, should it stay too short to be worth a macro line
+	cycles, runs    int
+}
+
+func (pk *packer) matches(e gate.Event) bool {
+	pos := len(pk.cyc)
+	if pos < 4 && e["ev"] != "lower" {
+		return false
+	}
+	switch pos {
+	case 0:
+		return e["act"] == "idxmiss"
+	case 1:
+		return e["act"] == "blobput"
+	case 2:
+		return e["act"] == "metaput" && e["np"] == 1
+	case 3:
+		return e["act"] == "idxset" && e["p"] == pk.cyc[0]["p"] && e["c"] == pk.cyc[1]["id"]
+	case 4:
+		return e["ev"] == "op" && e["op"] == "receive" && e["res"] == "ok" && e["b"] == pk.cyc[0]["p"] && e["flt"] != true
+	}
+	return false
+}
+
+func (pk *packer) flushRun() {
+	if len(pk.ps) >= 3 {
+		pk.seg.emit(gate.Event{"ev": "recvn", "ps": pk.ps, "cs": pk.cs, "ms": pk.ms, "szs": pk.szs})
+		pk.cycles += len(pk.ps)
+		pk.runs++
+	} else {
+		for _, c := range pk.raw {
+			for _, e := range c {
+				pk.seg.emit(e)
+			}
+		}
+	}
+	pk.ps, pk.cs, pk.ms, pk.szs, pk.raw = nil, nil, nil, nil, nil
+}
+
+func (pk *packer) flush() {
+	pk.flushRun()
+	for _, e := range pk.cyc {
+		pk.seg.emit(e)
+	}
+	pk.cyc = nil
+}
+
+func (pk *packer) emit(e gate.Event) {
+	if !pk.matches(e) {
+		pk.flush()
+		if !pk.matches(e) {
+			pk.seg.emit(e)
+			return
+		}
+	}
+	pk.cyc = append(pk.cyc, e)
+	if len(pk.cyc) == 5 {
+		c := pk.cyc
+		pk.ps = append(pk.ps, c[0]["p"])
+		pk.cs = append(pk.cs, c[1]["id"])
+		pk.ms = append(pk.ms, c[2]["id"])
+		pk.szs = append(pk.szs, c[4]["size"])
+		pk.raw = append(pk.raw, c)
+		pk.cyc = nil
+	}
+}
+
+// sampled leak scan: the plaintext windows / names of every step-th blob are searched in everything stored
+func newLeakScanSample(u *univ.Universe, step int) *leakScan {
+	var specs []univ.Blob
+	for i, b := range u.Blobs {
+		if i%step == 0 {
+			specs = append(specs, b)
+		}
+	}
+	return newLeakScan(&univ.Universe{Blobs: specs})
+}
+
+// observeLong: the client view after a restart - stat of everything, one enumeration of everything, pages following the
+// cursor, a fetch of EVERY blob (acknowledged ones and the few never received) as one "fetchn" line.
+func observeLong(w *world, seg *segment, everyFetch int) {
+	var all []int
+	for _, b := range w.u.Blobs {
+		all = append(all, b.Rank)
+	}
+	do := func(op drv.Op) gate.Event {
+		ev := w.r.Do(op)
+		w.drain(seg.emit, false)
+		seg.emit(ev)
+		return ev
+	}
+	do(drv.Op{Op: "stat", Bs: all})
+	do(drv.Op{Op: "enum", After: 0, Limit: len(all) + 5})
+	cur := 0
+	for step := 0; step < 3; step++ {
+		ev := do(drv.Op{Op: "enum", After: cur, Limit: 997, Form: step % 3})
+		lst, _ := ev["list"].([]any)
+		if ev["res"] != "ok" || len(lst) == 0 {
+			break
+		}
+		last := lst[len(lst)-1].([]any)[0].(int)
+		if last <= cur || last%2 != 0 {
+			break
+		}
+		cur = last
+	}
+	bs := []any{}
+	for i, b := range all {
+		if i%everyFetch == 0 {
+			bs = append(bs, b)
+		}
+	}
+	outc := make([]any, len(bs))
+	var wg sync.WaitGroup
+	for k := 0; k < 6; k++ {
+		wg.Add(1)
+		go func(k int) {
+			defer wg.Done()
+			for i := k; i < len(bs); i += 6 {
+				ev := w.r.Do(drv.Op{Op: "fetch", B: bs[i].(int)})
+				outc[i] = []any{ev["res"], ev["size"]}
+			}
+		}(k)
+	}
+	wg.Wait()
+	w.drain(seg.emit, false)
+	seg.emit(gate.Event{"ev": "fetchn", "bs": bs, "out": outc})
+}
+
+func runLong(scn *scenario, rng *rand.Rand) {
+	// 10^6 gate events (the jobs' index reads) are garbage a moment later
+	defer debug.SetGCPercent(debug.SetGCPercent(400))
+	tu := time.Now()
+	u := universe(rng, scn.N+3)
+	scan := newLeakScanSample(u, 50)
+	stats["long_ms_universe"] += int(time.Since(tu) / time.Millisecond)
+	ids := newIDs()
+	w, err := open(u, nil, ids, false, nil)
+	if err != nil {
+		fatal(err)
+	}
+	seg := &segment{}
+	seg.emit(resetEvent(w, scn, fmt.Sprintf("long/n=%d/restarts=%d", scn.N, len(scn.Restarts)), nil))
+	pk := &packer{seg: seg}
+	order := rng.Perm(scn.N + 3)[:scn.N]
+	rp := map[int]restartPt{}
+	for _, r := range scn.Restarts {
+		rp[r.At] = r
+	}
+	var got []int
+	maxLines := 0
+	t0 := time.Now()
+	lap := func(k string) {
+		stats["long_ms_"+k] += int(time.Since(t0) / time.Millisecond)
+		t0 = time.Now()
+	}
+	note := func(d *stores.Durable) {
+		for _, br := range d.Mem["r/1"].Refs() {
+			if data, ok := d.Mem["r/1"].Get(br); ok && len(data) > 100000 {
+				if n := len(w.metaEntries(d, br.String())); n > maxLines {
+					maxLines = n
+				}
+			}
+		}
+	}
+	for i, bi := range order {
+		rank := u.Blobs[bi].Rank
+		ev := w.r.Do(drv.Op{Op: "receive", B: rank})
+		w.drain(pk.emit, true)
+		if _, ok := ev["flt"]; !ok {
+			ev["flt"] = false
+		}
+		pk.emit(ev)
+		got = append(got, rank)
+		n := i + 1
+		if jobsRunning() == 0 {
+			// nobody else is logging: everything has been drained, forget it (the gate log would grow to 10^6 events)
+			w.drain(pk.emit, false)
+			w.lg.Reset()
+		}
+		if n%1000 == 500 {
+			// the map semantics while the history grows
+			pk.flush()
+			for _, op := range []drv.Op{{Op: "fetch", B: got[rng.Intn(len(got))]}, {Op: "enum", After: 2 * rng.Intn(len(u.Blobs)), Limit: 1 + rng.Intn(5)},
+				{Op: "stat", Bs: []int{rank, got[rng.Intn(len(got))], u.Blobs[order[(i+1)%len(order)]].Rank}}} {
+				if op.Op == "stat" && (op.Bs[0] == op.Bs[1] || op.Bs[1] == op.Bs[2]) {
+					op.Bs = op.Bs[:1]
+				}
+				ev := w.r.Do(op)
+				w.drain(pk.emit, false)
+				pk.emit(ev)
+			}
+		}
+		if r, ok := rp[n]; ok {
+			waitQuiet()
+			w.drain(pk.emit, false)
+			pk.flush()
+			note(w.dur)
+			lap("receives")
+			seg.emit(scan.scan(w.dur, fmt.Sprintf("before-restart@%d", n)))
+			lap("leak")
+			seg.emit(w.stateLine(w.dur, "state"))
+			lap("state")
+			w.sys.Close()
+			w2, ok := restart(w, seg, w.dur, r.Wipe, nil)
+			if !ok {
+				seg.flush()
+				classes["long/restart-failed"]++
+				return
+			}
+			w = w2
+			lap("restart")
+			seg.emit(w.stateLine(w.dur, "state"))
+			lap("state")
+			observeLong(w, seg, 1)
+			lap("observe")
+		}
+	}
+	waitQuiet()
+	w.drain(pk.emit, false)
+	pk.flush()
+	note(w.dur)
+	lap("receives")
+	seg.emit(scan.scan(w.dur, "end"))
+	lap("leak")
+	seg.emit(w.stateLine(w.dur, "state"))
+	lap("state")
+	observeLong(w, seg, 7)
+	lap("observe")
+	// and every acknowledged blob is recoverable from the wrapped stores alone
+	w.sys.Close()
+	w2, ok := restart(w, seg, w.dur, true, nil)
+	lap("restart")
+	if ok {
+		seg.emit(w2.stateLine(w2.dur, "state"))
+		lap("state")
+		observeLong(w2, seg, 1)
+		lap("observe")
+		w2.sys.Close()
+	}
+	seg.flush()
+	lap("write")
+	stats["long_max_lines_in_a_meta_blob"] = max(stats["long_max_lines_in_a_meta_blob"], maxLines)
+	stats["long_cycles_in_macro_lines"] += pk.cycles
+	stats["long_macro_lines"] += pk.runs
+	cls := "long/packed<=full"
+	if maxLines > encrypt.FullMetaBlobSize {
+		cls = "long/packed>full"
+	}
+	classes[fmt.Sprintf("%s/n=%d/r=%d", cls, scn.N, len(scn.Restarts))]++
 }
 
 // ---------------------------------------------------------------- crash
@@ -1320,7 +1637,16 @@ func main() {
 	sc := flag.String("scratch", "", "scratch dir")
 	verbose := flag.Bool("v", false, "perkeep logs to stderr")
 	limit := flag.Bool("limit", false, "print the code's compaction threshold (encrypt.SmallMetaCountLimit) and exit")
+	prof := flag.String("cpuprofile", "", "write a CPU profile (development aid)")
 	flag.Parse()
+	if *prof != "" {
+		pf, err := os.Create(*prof)
+		if err != nil {
+			fatal(err)
+		}
+		pprof.StartCPUProfile(pf)
+		defer pprof.StopCPUProfile()
+	}
 	if *limit {
 		fmt.Printf("limit=%d full=%d\n", encrypt.SmallMetaCountLimit, encrypt.FullMetaBlobSize)
 		return
@@ -1411,6 +1737,8 @@ func main() {
 		switch s.Kind {
 		case "hist":
 			runHist(s, rng)
+		case "long":
+			runLong(s, rng)
 		case "crash":
 			s.Pre = encrypt.SmallMetaCountLimit // the next receive is the one that triggers the compaction
 			runCrash(s, rng, win)
